@@ -31,7 +31,7 @@ TOKENS = ["$", "@", ".", "..", "[", "]", "(", ")", "?", ",", ":", "*", "!", "&&"
 GARBAGE = list("$@.[]()?,:*!&|=<>'\"\\ \n\t\r-+eE0123456789abcfnrtu_{}#~/") + ["é", "\U0001F600", " ", "\x00", "\x1f", "￿", "퟿", "\U0010ffff", "ÿ"]
 
 ROOTS = [None, True, False, 0, 1, -1, 1.5, "", "abc", [], {}, [None], [0, "a", [], {}], {"a": 1}, {"a": {"b": [1, 2, {"c": None}]}, "b": "x"},
-         [[1, 2], [3], []], {"a": [], "b": {}, "c": ""}, [{"a": 1, "b": 2}, {"a": "1"}, {"a": [1]}, {"a": None}, "a", 1, None, True, [], {}]]
+         [[1, 2], [3], []], {"a": [], "b": {}, "c": ""}, [10**400, -10**400, 1, 1.5, "a"], {"a": 10**400, "b": -(10**310)}, 10**400, [{"a": 1, "b": 2}, {"a": "1"}, {"a": [1]}, {"a": None}, "a", 1, None, True, [], {}]]
 
 
 def deep_doc(n, kind):
@@ -207,6 +207,7 @@ def run_shard(spec, rec):
     sites.start()
     R = random.Random(spec["seed"])
     cfg = G.Cfg(filters=True, regex_functions=True, big_ints=True, max_depth=3)
+    cfg.regex_pool = cfg.regex_pool + G.HOSTILE_PATTERNS
     gen = G.QGen(R, cfg)
     pool = []
     from jsonpath_rfc9535 import JSONPathEnvironment
